@@ -155,15 +155,25 @@ def run_session(emit, C, prop, hist, b, seed, mode):
                 elif a['a'] == 'query':
                     r = recs[a['h']]
                     fams = {a['fam']}
-                    rec_ctx.drive(r, r.table, b, fams, rng, False, nsub=3, nmulti=3, label_variant=lv, construct=False,
+                    if isinstance(r.ctx, rec_ctx.OrphanShim):
+                        rec_ctx.drive_orphans(r, r.table, b, fams, rng, keep=True)
+                    else:
+                        rec_ctx.drive(r, r.table, b, fams, rng, False, nsub=3, nmulti=3, label_variant=lv, construct=False,
                                    touch_cached=False)
                 elif a['a'] == 'fail':
                     fail_calls(recs[a['h']], a['lazy'])
                 elif a['a'] == 'derive':
                     src = recs[a['h']]
                     recs[a['g']] = clone_rec(src, derive(C, src.ctx, a['how'], rng), cemit, C)
+                elif a['a'] == 'abort':
+                    rec_ctx.abort_drawing(recs[a['h']])
+                elif a['a'] == 'orphan':
+                    r = recs[a['h']]
+                    r.members                       # the concept objects the caller keeps ...
+                    r.ctx = rec_ctx.OrphanShim(r._members)      # ... and nothing else
+                    gc.collect()
                 elif a['a'] == 'drop':
-                    if mode == 'flags':
+                    if mode == 'flags' and not isinstance(recs[a['h']].ctx, rec_ctx.OrphanShim):
                         observe_handle(emit, C, b, a['h'], recs[a['h']])
                     del recs[a['h']]
                     gc.collect()
@@ -175,13 +185,15 @@ def run_session(emit, C, prop, hist, b, seed, mode):
         nsteps += 1
         if mode == 'flags':
             try:
-                flags = [[h, bool(cached(r.ctx))] for h, r in sorted(recs.items())]
+                flags = [[h, bool(cached(r.ctx))] for h, r in sorted(recs.items())
+                         if not isinstance(r.ctx, rec_ctx.OrphanShim)]
             except Exception as exc:
                 flags, out = [], 'flags:' + type(exc).__name__
             emit({'b': b, 'ev': 's.step', 'a': a, 'flags': flags, 'out': out})
     if mode == 'flags':
         for h, r in sorted(recs.items()):          # whatever is still alive at the end of the session
-            observe_handle(emit, C, b, h, r)
+            if not isinstance(r.ctx, rec_ctx.OrphanShim):
+                observe_handle(emit, C, b, h, r)
     return n, m, tables
 
 
